@@ -22,6 +22,10 @@ func fs() string    { return "" }
 func fb() bool      { return false }
 func fbs() []byte   { return nil }
 func fxs() []int    { return nil }
+
+type st struct{ n int }
+
+func (r st) add(x int) int { return r.n + x }
 `
 
 // Flavour of a generated expression: decides which hazards may occur together, so that a failing
